@@ -387,6 +387,16 @@ func (e *expr) js() string {
 			return "String(" + x + ").length"
 		case e.op == 13:
 			return "(delete (" + x + "))"
+		case e.op == 14:
+			return "\"abcdefghij\".substr(0, " + x + ")"
+		case e.op == 15:
+			return "\"abcdefghij\".substr(" + x + ")"
+		case e.op == 16:
+			return s40 + ".lastIndexOf(\"a\", " + x + ")"
+		case e.op == 17:
+			return "[1, 2, 3].indexOf(3, " + x + ")"
+		case e.op == 18:
+			return "[1, 2, 3].lastIndexOf(1, " + x + ")"
 		default:
 			return "((" + x + ") >>> 0)"
 		}
@@ -1574,6 +1584,136 @@ func (g *gen) pinnedDefaultValue() {
 	}
 }
 
+// ToInteger (9.4) at every boundary, through the built-ins that take a position or length and through Value.ToInteger
+func (g *gen) pinnedToInteger() {
+	u := [3]value{pv(pUndef()), pv(pUndef()), pv(pUndef())}
+	p63 := 9223372036854775808.0
+	vals := []float64{p63, -p63, math.Nextafter(p63, 0), math.Nextafter(p63, math.Inf(1)), -math.Nextafter(p63, 0), -math.Nextafter(p63, math.Inf(1)),
+		p63 / 2, p63 * 2, -p63 * 2, 9007199254740992, -9007199254740992, 2147483648, -2147483648, 4294967296, -4294967296, 4294967295,
+		0, math.Copysign(0, -1), 0.5, -0.5, 0.9, -0.9, 1, -1, 1.5, -1.5, 2, -2, 3, -3, 4, -4, 9, 10, 11, -9, -10, -11, 39, 40, 41, -39, -40, -41,
+		math.NaN(), math.Inf(1), math.Inf(-1), 1.7976931348623157e308, -1.7976931348623157e308, 5e-324}
+	ops := []int{10, 14, 15, 16, 17, 18, 9}
+	for i, f := range vals {
+		for j, op := range ops {
+			if math.Abs(f) < 1e9 && math.Abs(f) > 2 && (i+j)%2 == 1 {
+				continue // thin out the small ordinary positions
+			}
+			g.runCase(u, un(op, lit(num(f))), "tointeger", true)
+		}
+		g.apiCaseOf(f, pNum(f), i%2 == 0, []int{0, 8, 9, 6}[i%4])
+	}
+	// the same boundary reached through ToNumber: strings, booleans, an object
+	for i, s := range []string{"9223372036854775808", "9.223372036854775808e18", "-9223372036854775808", " 9223372036854775808 ", "0x8000000000000000", "9223372036854775807", "1e19", "Infinity", "-Infinity", "", "abc", "2.9", "-2.9"} {
+		for _, op := range []int{14, 15, 16, 17, 18, 10} {
+			g.runCase(u, un(op, lit(str(s))), "tointeger", true)
+		}
+		if s != "0x8000000000000000" {
+			g.apiCaseOf(s, pStr(s), i%2 == 0, []int{0, 8, 9}[i%3])
+		}
+	}
+	for _, op := range []int{14, 15, 16, 17, 18, 10} {
+		g.nextID++
+		o := &obj{id: g.nextID, base: "{}", chain: []int64{90}, fproto: -1, vo: scriptedPrim(pNum(p63)), ts: scriptedPrim(pStr("2"))}
+		g.objs = append(g.objs, o)
+		g.runCase(u, un(op, lit(value{o: o})), "tointeger", true)
+		g.runCase(u, un(op, lit(pv(pBool(op%2 == 0)))), "tointeger", true)
+		g.runCase(u, un(op, lit(pv(pNull()))), "tointeger", true)
+		g.runCase(u, un(op, lit(pv(pUndef()))), "tointeger", true)
+	}
+}
+
+// ToInt32 / ToUint32 start with ToNumber: integers held in a Go 64-bit kind that are not doubles
+// (integer literals beyond 2^53, int64 / uint64 / int / uint through Otto.Set) under every bitwise operator
+func (g *gen) pinnedBigIntBitwise() {
+	ns := []uint64{1<<53 + 1, 1<<53 + 3, 1<<53 + 2, 1<<54 + 2, 1<<60 + 1, 1<<62 + 1, 1<<63 - 1, 1<<63 - 513, 1152921504606846977, 1<<63 + 1, 1<<63 + 1025, 1<<64 - 1, 1<<64 - 1025, 1<<32 + 1<<53 + 1}
+	i := 0
+	for _, n := range ns {
+		f := float64(n)
+		type rep struct {
+			mk func(vs *[3]value) *expr
+			ok bool
+		}
+		reps := []rep{
+			{func(vs *[3]value) *expr { return lit(pv(prim{kind: kNum, f: f, lit: strconv.FormatUint(n, 10)})) }, n < 1<<63},
+			{func(vs *[3]value) *expr { vs[0] = num(f); g.force = map[string]interface{}{"a": injection{gv: int64(n), route: 0}}; return evar(0) }, n < 1<<63},
+			{func(vs *[3]value) *expr { vs[0] = num(f); g.force = map[string]interface{}{"a": injection{gv: n, route: []int{0, 8, 9, 1}[i%4]}}; return evar(0) }, true},
+			{func(vs *[3]value) *expr { vs[0] = num(f); g.force = map[string]interface{}{"a": injection{gv: int(n), named: true, route: 0}}; return evar(0) }, n < 1<<63},
+			{func(vs *[3]value) *expr {
+				vs[0] = num(-f)
+				g.force = map[string]interface{}{"a": injection{gv: -int64(n), route: 0}}
+				return evar(0)
+			}, n < 1<<63},
+		}
+		for _, rp := range reps {
+			if !rp.ok {
+				continue
+			}
+			for k := 0; k < 4; k++ {
+				vs := [3]value{pv(pUndef()), pv(pUndef()), pv(pUndef())}
+				x := rp.mk(&vs)
+				var e *expr
+				switch i % 10 {
+				case 0:
+					e = bin(6, x, lit(num(0)))
+				case 1:
+					e = un(2, x)
+				case 2:
+					e = un(11, x)
+				case 3:
+					e = bin(8, lit(num(1)), x)
+				case 4:
+					e = bin(5, x, lit(num(-1)))
+				case 5:
+					e = bin(7, x, lit(num(0)))
+				case 6:
+					e = bin(9, x, lit(num(0)))
+				case 7:
+					e = bin(10, lit(num(-1)), x)
+				case 8:
+					e = bin(8, x, lit(num(0)))
+				default:
+					e = bin(13, bin(6, x, lit(num(0))), bin(6, lit(num(f)), lit(num(0))))
+				}
+				i++
+				g.runCase(vs, e, "bigint-bitwise", true)
+			}
+		}
+	}
+}
+
+// instanceof 15.3.5.3: a primitive on the left gives false before F.prototype is looked at
+func (g *gen) pinnedInstanceofPrimitive() {
+	u := [3]value{pv(pUndef()), pv(pUndef()), pv(pUndef())}
+	lefts := []prim{pNum(1), pNum(0), pStr("s"), pStr(""), pBool(true), pBool(false), pNull(), pUndef(), pNum(math.NaN())}
+	for i, l := range lefts {
+		for _, spec := range []struct {
+			cls    int
+			fproto int64
+		}{{2, 0}, {4, 0}, {2, 91}, {4, 92}, {2, 1000}} {
+			g.nextID++
+			f := &obj{id: g.nextID, cls: spec.cls, base: "function(){}", chain: []int64{89, 90}, fproto: spec.fproto, vo: scriptedPrim(pNum(2)), ts: scriptedPrim(pStr("f"))}
+			if spec.fproto == 1000 {
+				f.fproto = int64(1000 + f.id)
+			}
+			g.objs = append(g.objs, f)
+			vs := u
+			le := lit(pv(l))
+			if i%2 == 1 {
+				vs[0] = pv(l)
+				le = evar(0)
+			}
+			g.runCase(vs, bin(20, le, lit(value{o: f})), "instanceof-primitive", true)
+		}
+	}
+	// an object on the left does reach the TypeError
+	for _, cls := range []int{2, 4} {
+		g.nextID++
+		f := &obj{id: g.nextID, cls: cls, base: "function(){}", chain: []int64{89, 90}, fproto: 0, vo: scriptedPrim(pNum(2)), ts: scriptedPrim(pStr("f"))}
+		g.objs = append(g.objs, f)
+		g.runCase(u, bin(20, lit(value{o: g.p91}), lit(value{o: f})), "instanceof-primitive", true)
+	}
+}
+
 // 9.3.1 StrWhiteSpaceChar: every white-space and line-terminator character, and the characters next to them
 // in the code charts or commonly mistaken for white space, at the front, at the end and inside a numeric string
 func (g *gen) pinnedWhitespace() {
@@ -1779,10 +1919,13 @@ func (g *gen) goEntryCase() ([3]value, *expr) {
 
 // the same values read back through the Go API
 func (g *gen) apiCase() {
-	r := g.env.Rng
 	gv, p := g.kindValue()
+	g.apiCaseOf(gv, p, g.env.Rng.Intn(2) == 0, g.env.Rng.Intn(numRoutes))
+}
+
+func (g *gen) apiCaseOf(gv interface{}, p prim, named bool, route int) {
 	var src strings.Builder
-	desc, err := enterAny(g.vm, "a", gv, r.Intn(2) == 0, r.Intn(numRoutes), &src)
+	desc, err := enterAny(g.vm, "a", gv, named, route, &src)
 	if err != nil {
 		return
 	}
@@ -2105,6 +2248,9 @@ func runC05(env *Env) {
 	}
 	g.pinnedDefaultValue()
 	g.pinnedWhitespace()
+	g.pinnedToInteger()
+	g.pinnedBigIntBitwise()
+	g.pinnedInstanceofPrimitive()
 	g.intRepr(9007199254740993, 0)
 	g.intRepr(60032052788413712, 1)
 	{ // repaired (07b2f1f): typeof (1 ? nope : 0) throws, (1 ? o.f : 0)() runs with the global object as this
